@@ -638,6 +638,18 @@ def _wiski(case, ctx, g):
             # fantasy model must leave its source's predictions alone, also a source that has not predicted yet)
             for item in chain:
                 _wiski_check(ctx, case, m, lik, xs, *item)
+        # siblings: further children of the SAME parent (the root, and the first child) - each carries its parent's data
+        # plus its own, nothing of its elder siblings'
+        parents = [(m, X, y)] + ([(chain[0][1], chain[0][2], chain[0][3])] if len(chain) > 1 else [])
+        for par, Xp, yp in parents:
+            for j_ in range(2):
+                Xs_, ys_ = util.rand(g, 2, d) * 1.4 - 0.7, util.randn(g, 2)
+                try:
+                    sib = par.get_fantasy_model(Xs_, ys_)
+                except Exception as e:
+                    ctx.fail("wiski_fantasy", f"KISS-GP get_fantasy_model (sibling) raised {type(e).__name__}: {str(e)[:160]}", "raise", exc=type(e).__name__)
+                    return
+                _wiski_check(ctx, dict(case, sibling=True), m, lik, xs, 10 + j_, sib, torch.cat([Xp, Xs_]), torch.cat([yp, ys_]))
 
 
 def _wiski_check(ctx, case, m, lik, xs, level, cur, Xall, yall):
@@ -650,7 +662,7 @@ def _wiski_check(ctx, case, m, lik, xs, level, cur, Xall, yall):
     J = m.covar_module(torch.cat([Xall, xs], -2)).to_dense()
     mu = m.mean_module(torch.cat([Xall, xs], -2))
     rm, rc, _, _ = util.dense_conditional(J[:n, :n], J[n:, :n], J[n:, n:], mu[:n], mu[n:], lik.noise.detach() * torch.eye(n), yall)
-    tag = (":late" if case.get("late_eval") else "") + (":love" if case.get("fast_pred_var") else "")
+    tag = (":late" if case.get("late_eval") else "") + (":love" if case.get("fast_pred_var") else "") + (":sibling" if case.get("sibling") else "")
     ctx.close("wiski_fantasy", out.mean, rm, (1e-6, 1e-6), cls=f"wiski:mean:m{case['mean']}{tag}", level=level, prior_mean=case["mean"], late=bool(case.get("late_eval")))
     ctx.close("wiski_fantasy", out.covariance_matrix, rc, (1e-5, 1e-5) if case.get("fast_pred_var") else (1e-6, 1e-6), cls="wiski:cov" + tag, level=level, late=bool(case.get("late_eval")))
 
